@@ -109,6 +109,7 @@ def run(ctx):
             n_ = Tb.node(ev[2])
             if n_[0] == 'mod' and n_[2] == q and Tb.node(n_[1])[0] == 'add':
                 okr = True
+    r17c(ctx)
     (ctx.ok if okr else ctx.bad)('R17b', 'R17b:Flip_twoparty:sum', 'result accumulates the shares modulo q' if okr else 'result is not the sum of the shares modulo q', flip)
 
 
@@ -147,3 +148,64 @@ EXPLANATION = ("Static ordering and guard analysis of the two-party coin flip: t
                "value' are not decided.")
 ASSUMPTIONS = ["a value is hidden iff it only occurs in exponent position of a modular exponentiation or inside a hash",
                "stream sends/receives are the only communication of the two-party protocol"]
+
+
+def r17c(ctx):
+    """multi-party variant, index-role agreement: a value received from party j (point-to-point
+    Receive or broadcast DeliverFrom) that is stored in a two-dimensional share table is stored
+    in row j -- the row every later use (share check, sum, reconstruction) reads for dealer j"""
+    prog = ctx.prog
+    n = 0
+    for q in (RVSS + '::Share', RVSS + '::Reconstruct', EDCF + '::Flip'):
+        for f in prog.by_q.get(q, []):
+            a = ctx.analysis(f)
+            T = a.T
+
+            def peer_of(val):
+                """peer index term if val is (derived only by copy from) a value filled by Receive/DeliverFrom"""
+                peers = set()
+                seen = set()
+                st_ = [val]
+                while st_:
+                    x = st_.pop()
+                    if x in seen:
+                        continue
+                    seen.add(x)
+                    vn = T.node(x)
+                    if vn[0] == 'out' and vn[1].split('::')[-1] in ('Receive', 'DeliverFrom'):
+                        args = vn[3:]
+                        if len(args) >= 2:
+                            peers.add(a.strip_ix(args[1], a.ix_loops(args[1])))
+                    elif vn[0] == 'phi':
+                        st_.extend(T.phi_src.get((vn[1], vn[2]), ()))
+                    elif vn[0] == 'ix':
+                        st_.append(vn[1])
+                if len(peers) == 1:
+                    return peers.pop()
+                return None
+            for nid, evs in a.events.items():
+                writes = [e for e in evs if e[0] == 'write' and e[1][0] == 'e' and e[1][1][0] == 'e' and e[1][1][1][0] == 'm']
+                if not writes:
+                    continue
+                idx = {}
+                for e in evs:
+                    if e[0] == 'index' and e[1] is not None and e[1][0] == 'm':
+                        idx.setdefault(e[1][1], []).append(e[2])
+                for w in writes:
+                    member = w[1][1][1][1]
+                    peer = peer_of(w[2])
+                    if peer is None:
+                        continue
+                    rows = idx.get(member, [])
+                    if not rows:
+                        continue
+                    n += 1
+                    row = a.strip_ix(rows[0], a.ix_loops(rows[0]))
+                    peer_s = a.strip_ix(peer, a.ix_loops(peer))
+                    key = 'R17c:%s:%s' % (f['q'], member)
+                    if row == peer_s:
+                        ctx.ok('R17c', key, 'share received from party j is stored in row j of %s' % member, f, line=w[3])
+                    else:
+                        ctx.bad('R17c', key, 'a share received from party %s is stored in row %s of %s: the row later read for that dealer keeps the old value' % (
+                            T.show(peer_s, 2), T.show(row, 2), member), f, line=w[3])
+    ctx.floor('R17c', n, 4)
